@@ -21,6 +21,8 @@ pub struct Plan {
     pub widths: Vec<Width>,
     pub w_full: bool,
     pub n_depth: usize,
+    /// maximal length of the A programs that get comment insertions (0 = none)
+    pub comments: usize,
 }
 
 pub fn plan(tier: Tier, backend: Backend) -> Plan {
@@ -38,6 +40,7 @@ pub fn plan(tier: Tier, backend: Backend) -> Plan {
             widths: vec![Width::W8, Width::W64],
             w_full: false,
             n_depth: if backend == Backend::IrInt { 5 } else { 4 },
+            comments: if backend == Backend::Inplace { 5 } else { 0 },
         },
         Tier::Thorough => Plan {
             a_len: 8,
@@ -51,6 +54,7 @@ pub fn plan(tier: Tier, backend: Backend) -> Plan {
             widths: Width::ALL.to_vec(),
             w_full: true,
             n_depth: if backend == Backend::IrInt { 5 } else { 4 },
+            comments: if backend == Backend::Inplace { 6 } else { 4 },
         },
     }
 }
@@ -108,9 +112,40 @@ pub fn enumerate(p: &Plan, f: &mut dyn FnMut(u64, &'static str, &[u8])) -> u64 {
     }
     let w0 = base;
     base += spaces::space_w(p.w_full, &mut |i, c| f(w0 + i, "W", c));
+    let p0 = base;
+    base += spaces::space_p(p.w_full, &mut |i, c| f(p0 + i, "P", c));
     for c in spaces::space_v() {
         f(base, "V", &c);
         base += 1;
+    }
+    for c in spaces::space_t(p.w_full) {
+        f(base, "T", &c);
+        base += 1;
+    }
+    for c in spaces::space_q() {
+        f(base, "Q", &c);
+        base += 1;
+    }
+    if p.comments > 0 {
+        // "every other character is a comment": every program of A(<= comments) with one comment string
+        // (multi-byte UTF-8, look-alike code points, ASCII + newline) inserted at every position
+        let c0 = base;
+        let mut n = 0u64;
+        spaces::space_a(p.comments, &mut |_, c| {
+            if !c.contains(&b'[') && !c.contains(&b'.') {
+                return;
+            }
+            for ins in ["\u{e9}", "x\n", "\u{1F600}", "\u{12b}\u{15b}"] {
+                for pos in 0..=c.len() {
+                    let mut v = c[..pos].to_vec();
+                    v.extend_from_slice(ins.as_bytes());
+                    v.extend_from_slice(&c[pos..]);
+                    f(c0 + n, "C", &v);
+                    n += 1;
+                }
+            }
+        });
+        base += n;
     }
     let n0 = base;
     base += spaces::space_n(p.w_full, p.n_depth, &mut |i, c| f(n0 + i, "N", c));
@@ -149,6 +184,10 @@ pub fn replay_program(ctx: &mut WorkerCtx, prop: &'static str, backend: Backend,
         "A"
     } else if code.starts_with(b"++>>,>") || code.starts_with(b"+>>,>") {
         "W"
+    } else if code.starts_with(b"++>,>,") || code.starts_with(b"+>,>,") {
+        "P"
+    } else if code.starts_with(b",[---") {
+        "Q"
     } else if code.starts_with(b",[>++++++++++++++++<-]>") {
         "V"
     } else {
@@ -182,12 +221,49 @@ pub fn judge_program(ctx: &mut WorkerCtx, p: &Plan, prop: &'static str, backend:
             } else {
                 p.depth
             };
+            let mut lenient: std::collections::HashSet<Vec<u8>> = std::collections::HashSet::new();
             let runs = if tag == "W" {
                 // wide assignments need all cells distinct and non-zero: fixed scripts, no choice tree
                 spaces::W_SCRIPTS
                     .iter()
-                    .map(|s| (s.to_vec(), crate::refbf::run(&code, w, s, p.step_cap * 4, false)))
+                    .map(|s| {
+                        let c = crate::refbf::run(&code, w, s, p.step_cap * 4, false);
+                        if c.verdict != Verdict::Halt {
+                            // the wide-constant forms add 2^37+3 one unit at a time at 64 bit: accelerated reference,
+                            // lenient judgement on optimising configurations
+                            let a = crate::refbf::run_opt(&code, w, s, p.step_cap * 4, false, true);
+                            if a.verdict == Verdict::Halt {
+                                lenient.insert(s.to_vec());
+                                return (s.to_vec(), a);
+                            }
+                        }
+                        (s.to_vec(), c)
+                    })
                     .collect()
+            } else if tag == "P" {
+                // prefix chains: fixed scripts (distinct non-zero bytes, and small values so that products stay
+                // small); naive reference with a larger step cap (the multiply links are nested loops)
+                spaces::W_SCRIPTS
+                    .iter()
+                    .map(|s| s.to_vec())
+                    .chain([spaces::P_SMALL_SCRIPT.to_vec()])
+                    .map(|s| {
+                        let c = crate::refbf::run(&code, w, &s, p.step_cap * 16, false);
+                        if c.verdict != Verdict::Halt {
+                            // e.g. a 2^37 constant added one unit at a time: only the accelerated reference
+                            // finishes; such cases are judged leniently on optimising configurations
+                            let a = crate::refbf::run_opt(&code, w, &s, p.step_cap * 16, false, true);
+                            if a.verdict == Verdict::Halt {
+                                lenient.insert(s.clone());
+                                return (s, a);
+                            }
+                        }
+                        (s, c)
+                    })
+                    .collect()
+            } else if tag == "Q" {
+                // quotient probes: every single input byte
+                (1..=255u8).map(|b| (vec![b], crate::refbf::run(&code, w, &[b], p.step_cap, false))).collect()
             } else if tag == "V" {
                 // wide values: the multiplier loops run up to 2^60 times canonically; the reference closes
                 // them in one step (accelerated mode, validated against the naive mode in C04) and only
@@ -290,6 +366,18 @@ pub fn judge_program(ctx: &mut WorkerCtx, p: &Plan, prop: &'static str, backend:
                 for (script, canon) in &halting {
                     ctx.count("executions", 1);
                     ctx.count("actions_compared", canon.trace.len() as u64);
+                    if lenient.contains(script) {
+                        if level == 0 || backend == Backend::Inplace {
+                            continue;
+                        }
+                        ctx.count("accel_only_cases", 1);
+                        match diff::judge_halting_lenient(&comp, script, canon) {
+                            Ok(true) => {}
+                            Ok(false) => ctx.count("accel_only_inconclusive", 1),
+                            Err(f) => ctx.fail(failure_json(prop, backend, w, level, &code, script, &f)),
+                        }
+                        continue;
+                    }
                     let key = diff::case_key(prop, backend, w, level, "execute", &code, script);
                     let known_hang = matches!(ctx.known.members.get(&key), Some((_, c)) if c == "hang");
                     if let Err(f) = judge_halting(&comp, script, canon, known_hang) {
@@ -326,7 +414,15 @@ pub fn info(tier: Tier, prop: &'static str, backend: Backend) -> CheckInfo {
              <= {} statements inside 4 loop shapes, 3 initialisations; also every loop around <= 1 statement followed by one statement \
              after the loop){}, W (k-cell rotations with per-cell forms copy/x2/x3/negate/ \
              shared/shared+const/+const/div3/product/wide constant: default, every single deviation, uniform and alternating \
-             assignments{}), V (an input byte shifted left by 4k bits, k up to 16, used as loop/branch condition; optimising \
+             assignments{}), P (prefix chains: k data cells, one loop iteration runs the links d[i+1] op= d[i] in order with op from \
+             add/sub/add+5/add 3x/mul/reverse-sub/add-7/mul then x3/add + wide constant/mul + wide constant, so partial sums and \
+             products are long-lived shared temporaries: uniform chains, every single deviation{} from the add and mul chains; the \
+             wide constant is 2^37+3 so that a lost constant shows in the low byte; cases only the accelerated reference can finish \
+             are judged leniently on optimising configurations: a finished run must equal the canonical trace, an unfinished one is \
+             inconclusive and counted), T (stride loops: a loop with a net shift of exactly n cells in either direction executed \
+             twice, n around the +-128-byte and page boundaries), Q (quotient probes `,[-{{s}}>+<]>-{{q}}[[-]<+.>]<.` for odd steps s: \
+             the closed-form trip count is compared with q by a zero test, on every single input byte){}, \
+             V (an input byte shifted left by 4k bits, k up to 16, used as loop/branch condition; optimising \
              configurations only, accelerated reference), N (a loop whose body is every sequence of <= {} tokens from moves, scans \
              [>] [<], stationary loops [] [-], + and . that contains a scan, 3 prefixes, with and without a final output) and the \
              repository corpus K. For each program and width the input choice tree \
@@ -346,6 +442,8 @@ pub fn info(tier: Tier, prop: &'static str, backend: Backend) -> CheckInfo {
                 _ => "",
             },
             if p.w_full { ", every pair of deviations, k in {2,3,5,8,10..16}" } else { ", k in {2,3,11,12,13,14}" },
+            if p.w_full { " and every pair of deviations, k in {3,6,10,12..16,18}" } else { ", k in {3,12,14,16}" },
+            if p.comments > 0 { format!(", C (every program of A(<= {}) containing a loop or an output with one comment string - multi-byte UTF-8, look-alike code points U+012B U+015B, ASCII+newline - inserted at every position)", p.comments) } else { String::new() },
             p.n_depth,
             p.depth,
             p.s_depth,
